@@ -63,7 +63,7 @@ def int_bounds(b):
 def conc_scalar(env, t, tok):
     """argument token -> Python object for a scalar-like field of type t"""
     b = env.base(t)
-    common = {"str": "x", "float": 1.5, "none": None, "bytes": b"x"}
+    common = {"str": "x", "float": 1.5, "none": None, "bytes": b"x", "estr": "", "elist": [], "zerof": 0.0, "zero": 0}
     if b["k"] == "int":
         lo, hi = int_bounds(b)
         table = {"0": 0, "1": 1, "max": hi, "min": lo, "min-1": lo - 1, "max+1": hi + 1}
